@@ -80,8 +80,8 @@ def monomial(
     stop = numpy.array(stop, dtype=int)
     if isinstance(dimensions, str):
         names, dimensions = (dimensions,), 1
-    elif isinstance(dimensions, int):
-        dimensions = max(start.size, stop.size, dimensions)
+    elif isinstance(dimensions, (int, numpy.integer)):
+        dimensions = max(start.size, stop.size, int(dimensions))
         names = numpoly.variable(dimensions).names
     elif dimensions is None:
         dimensions = max(start.size, stop.size)
